@@ -15,9 +15,9 @@ from tools.vlib import Outcome, sx
 from tools.props import c02_gen as G
 
 MANIFEST = {
-    "level_text": "Coq theorems (Properties/C02.v, 13 obligations, no axioms) about a set-level Gallina model of what types.ts, commands.ts, events.ts and index.ts export, import and mention in each mode (faithful to the repaired code, remaining defects included). C02_closed (both modes; instances C02_closed_zod, C02_closed_plain): for every well-formed project whose types are of the documented type language (dom), in which every named type used is a serde struct/enum of the project or covered by a type mapping (closed_world, the premise of the property text), and which lies outside the four recorded defect classes, every reference of every generated module resolves (types.ts: declaration, import or built-in; commands.ts/events.ts: types.X exported by types.ts, Zod schemas and inferred aliases of enums and structs included), index.ts re-exports exactly the files written (C02_index_exact: unconditionally), and no module declares an exported name twice. The proof goes through C02_closed_world_declares (harvester, parser, resolve_types_lazily closure and collect_used_types closure agree: every mentioned custom name is declared), which uses the C07 worker's theorems parse_tts_faithful and harvest_names for the repaired splitter and a fixed-point argument for the bounded closure. The boolean oracle is proved equivalent to the Prop-level definitions (C02_oracle_closed_iff, C02_oracle_nodup_iff). The model and the oracle are tied to /repo on every run: the real CLI is run on closed-world projects (custom types at every structural position of every site, enums, events, channels, type mappings, adversarial names, multi-file projects in several fresh processes) and the parsed files must have exactly the export/import/reference sets the model predicts.",
+    "level_text": "Coq theorems (Properties/C02.v, 17 obligations, no axioms) about a set-level Gallina model of what types.ts, commands.ts, events.ts and index.ts export, import and mention in each mode (faithful to the repaired code, remaining defects included). C02_closed (both modes; instances C02_closed_zod, C02_closed_plain): for every well-formed project whose types are of the documented type language (dom), in which every named type used is a serde struct/enum of the project or covered by a type mapping (closed_world, the premise of the property text), and which lies outside the four recorded defect classes, every reference of every generated module resolves (types.ts: declaration, import or built-in; commands.ts/events.ts: types.X exported by types.ts, Zod schemas and inferred aliases of enums and structs included), index.ts re-exports exactly the files written (C02_index_exact: unconditionally), and no module declares an exported name twice. The proof goes through C02_closed_world_declares (harvester, parser, resolve_types_lazily closure and collect_used_types closure agree: every mentioned custom name is declared), which uses the C07 worker's theorems parse_tts_faithful and harvest_names for the repaired splitter and a fixed-point argument for the bounded closure. The boolean oracle is proved equivalent to the Prop-level definitions (C02_oracle_closed_iff, C02_oracle_nodup_iff). C02_reuse_closed: the same conclusion for every round of ONE analyzer and generator reused over a history of analyse+generate rounds (Model/C02Reuse.v: state machine of what HEAD accumulates - AST cache that keeps removed files, discovered structs that keep their first definition, accumulated events; a round is observed through the view of the state under the round's mappings), for histories outside the class C02-9 (kf_reuse_maps, a Gallina predicate; refuted inside the class by C02_reuse_refuted) whose rounds only add names that are discovered or mapped (fresh_ok, decidable); the closed-world premise of each round's view is not assumed but carried as an invariant through the fold of the rounds (C02_reuse_closed_world_invariant). The model and the oracle are tied to /repo on every run: the real CLI is run on closed-world projects (custom types at every structural position of every site, enums, events, channels, type mappings, adversarial names, multi-file projects in several fresh processes) and the parsed files must have exactly the export/import/reference sets the model predicts; the reused library objects (harness c02-reuse) must produce, in every round of every reuse history, exactly the summaries of the state machine.",
     "design_ref": "DESIGN.md section 5 C02, section 12",
-    "level_note": "Full at the level of name sets. Not covered by a theorem: that a rendered type text lexes to exactly the names the model lists (C01/C05's business; covered here by the correspondence run and the add_types_prefix small-scope stream); function bodies are token sequences in which only types.X members, call heads and instanceof operands are resolved; the type-language premise dom excludes qualified paths (std::collections::HashMap), unknown generic heads (DateTime<Utc>), lower-case type names and bare container names - outside dom only C02_closed_if_declared (decidable side condition refs_declared) applies. Model/C07TypeParse.v and Model/C07Harvest.v (parser and harvester) are the C07 worker's models, imported read-only together with their faithfulness theorems. Cross-module ambiguity through index.ts's two export * and import/declaration conflicts are observed and compared with the model but not judged: the property text speaks of names a module declares.",
+    "level_note": "Full at the level of name sets. Reuse: fresh_ok (what a round adds mentions only discovered or mapped names) is a decidable premise evaluated on every round at run time, not yet derived from the round's sources (C02_reuse_fresh_full_statement is stated, not asserted: needs the completeness of resolve_types_lazily relativised to names not yet discovered); wf / dom / outside-the-classes are asked of each round's view. Not covered by a theorem: that a rendered type text lexes to exactly the names the model lists (C01/C05's business; covered here by the correspondence run and the add_types_prefix small-scope stream); function bodies are token sequences in which only types.X members, call heads and instanceof operands are resolved; the type-language premise dom excludes qualified paths (std::collections::HashMap), unknown generic heads (DateTime<Utc>), lower-case type names and bare container names - outside dom only C02_closed_if_declared (decidable side condition refs_declared) applies. Model/C07TypeParse.v and Model/C07Harvest.v (parser and harvester) are the C07 worker's models, imported read-only together with their faithfulness theorems. Cross-module ambiguity through index.ts's two export * and import/declaration conflicts are observed and compared with the model but not judged: the property text speaks of names a module declares.",
     "technique": "Rocq/Coq proof over hand-written model + correspondence check (extracted OCaml oracle on the real CLI's output vs extracted model)"
 }
 
@@ -38,7 +38,7 @@ RULE = ("corpus: one witness per recorded finding; adversarial: 40 hand-written 
         "reuse: ONE CommandAnalyzer and ONE generator (library API, harness c02-reuse) taken through 2-3 analyse+generate rounds on edited sources - payload struct "
         "renamed / removed, event removed and re-added with another payload, a type added to an existing file and used from a new file, a field of a new type, "
         "addition then removal, a file removed, another project (and back), the same project again - 11 histories on each of 15 (quick) / 123 (thorough) base "
-        "projects x 2 modes, closedness and duplicate-freedom judged after EVERY round; "
+        "projects x 2 modes, closedness and duplicate-freedom judged after EVERY round, and the four summaries of every round compared with the extracted state machine of the accumulated analyzer state (Model/C02Reuse.v); "
         "history: 60 (quick) / 600 (thorough) two-generation histories into one output directory (event removed / "
         "added / unrelated project / same project; same or other mode), the second run is judged: the files it wrote (marker technique) against the "
         "model of the second project, index.ts against exactly those files; random: 600 (quick) / 6000 (thorough) projgen graph projects with events, channels, enums, type mappings, 70% clean contexts / 30% wild, x 2 modes; "
@@ -204,11 +204,27 @@ def evaluate(jobs, reps=1, history=None):
 
 # ----------------------------------------------------------------------------- one analyzer reused over several rounds
 
+def reuse_model_sx(rounds, mode):
+    """((round ..) zod) for Model/C02Reuse.v: a path is its rank in the sorted PathBuf order of all paths of the history."""
+    paths = sorted({rel for r in rounds for rel in r["files"]}, key=lambda x: x.split("/"))
+    rank = {rel: i for i, rel in enumerate(paths)}
+    rs = []
+    for r in rounds:
+        files = [[rank[rel], [G.sx_item(i) for i in r["files"][rel]]] for rel in sorted(r["files"], key=lambda x: x.split("/"))]
+        maps = sorted(((r.get("config") or {}).get("typeMappings") or {}).items())
+        rs.append([files, [[k, v] for k, v in maps]])
+    return [rs, mode == "zod"]
+
+
+REUSE_STATS = {"rounds": 0, "rounds_fresh_ok": 0, "rounds_view_in_theorem_premises": 0, "rounds_types_ts_differs_from_fresh_model": 0}
+
+
 def evaluate_reuse(hists, modes=("none", "zod")):
     """hists: (label, [case per round]). One CommandAnalyzer and one generator (harness c02-reuse) go through
-    all rounds; the oracle judges the four files of EVERY round. The model makes one claim about reuse:
-    everything a fresh analysis of the round's sources exports (per module) is exported by the reused
-    objects too (they accumulate)."""
+    all rounds; the oracle judges the four files of EVERY round. Model: the state machine of Model/C02Reuse.v
+    (accumulated AST cache, discovered structs with their first definition, accumulated events); the four
+    files of every round must have exactly the summaries of gen (view state maps). The class flag of C02-9
+    (kf_reuse_maps) and the per-round class flags come from the extracted model."""
     import shutil
     jobs = [(label, rounds, m) for label, rounds in hists for m in modes]
     boxes = [vlib.Sandbox("c02r") for _ in jobs]
@@ -229,6 +245,7 @@ def evaluate_reuse(hists, modes=("none", "zod")):
             index.append((i, k))
     judged = vlib.run_runner("c02-judge", judge_in)
     modeled = vlib.run_runner("c02-model", model_in)
+    machine = vlib.run_runner("c02-reuse", [sx(reuse_model_sx(rounds, m)) for label, rounds, m in jobs])
     per = {}
     for key, j, mo in zip(index, judged, modeled):
         per[key] = (j, mo)
@@ -238,35 +255,61 @@ def evaluate_reuse(hists, modes=("none", "zod")):
         if "panic" in o:
             outs.append(Outcome(c, False, False, detail={"impl": "PANIC " + str(o["panic"])}))
             continue
+        mach = machine[i]
+        if mach and mach[0] == "runner-error":
+            raise vlib.BuildError("runner: %s" % (mach[:2],))
+        dropped = mach[0] == "true"          # kf_reuse_maps (Model/C02Reuse.v): a later round lacks a mapping key an earlier round had
         ok = corr = True
-        kf = None
+        kf = "C02-9" if dropped else None
         rdet = []
-        seen_maps = set()
         for k in range(len(rounds)):
-            mk = set(((rounds[k].get("config") or {}).get("typeMappings") or {}).keys())
-            if seen_maps - mk:
-                kf = "C02-9"       # a mapping an earlier round relied on is gone: stale definitions render unmapped
-            seen_maps |= mk
             j, mo = per[(i, k)]
             if (j and j[0] == "runner-error") or (mo and mo[0] == "runner-error"):
                 raise vlib.BuildError("runner: %s %s" % (j[:2], mo[:2]))
             wf, cw, broken = (x == "true" for x in mo[0:3])
             if not (wf and cw):
                 raise AssertionError("reuse round outside the premise: %s round %d" % (label, k))
-            kfs = [x == "true" for x in mo[3]]
-            kf = kf or next((KF_ORDER[n] for n, b in enumerate(kfs) if b), None)
-            irep, mrep = canon_report(j), canon_report(mo[5])
+            vm, fresh_ok, known = mach[1][k]
+            fresh_ok = fresh_ok == "true"
+            vwf, vcw, vbroken = (x == "true" for x in vm[0:3])
+            vkfs = [x == "true" for x in vm[3]]
+            vdom = vm[8] == "true"
+            kf = kf or next((KF_ORDER[n] for n, b in enumerate(vkfs) if b), None)
+            irep, frep, vrep = canon_report(j), canon_report(mo[5]), canon_report(vm[5])
             st = o["rounds"][k].get("status")
             ok_k = st == "ok" and irep["closed"] and irep["nodup"]
-            # wrappers and listeners accumulate; types.ts does not (a type redefined under its old name keeps the
-            # definition of the first analysis, so dependencies of the new definition may be missing - stale, closed)
+            # the state machine predicts every file of the round exactly
+            same = st == "ok" and all(irep[x] == vrep[x] for x in ("files", "closed", "nodup", "index_ambiguous", "import_decl_conflicts"))
+            if vbroken:
+                same = not ok_k
+            # wrappers and listeners of a fresh analysis of the round's sources are all there (accumulation)
             sup = st == "ok" and all(b[0] != "parsed" or (a[0] == "parsed" and set(b[1]) <= set(a[1]))
-                                     for a, b in zip(irep["files"][1:3], mrep["files"][1:3]))
+                                     for a, b in zip(irep["files"][1:3], frep["files"][1:3]))
+            why = None
+            # C02_reuse_closed re-checked on the extracted code: outside the class, fresh part closed, view well formed, in the
+            # type language and outside the per-round classes => the view's graph is closed and duplicate-free
+            in_prem = (not dropped) and fresh_ok and vwf and vdom and not any(vkfs)
+            if in_prem and not (vrep["closed"] and vrep["nodup"] and vcw):
+                same = False
+                why = "state-machine model predicts a violation inside the premises of theorem C02_reuse_closed"
+            REUSE_STATS["rounds"] += 1
+            REUSE_STATS["rounds_fresh_ok"] += fresh_ok
+            REUSE_STATS["rounds_view_in_theorem_premises"] += in_prem
+            REUSE_STATS["rounds_types_ts_differs_from_fresh_model"] += irep["files"][0] != frep["files"][0]
             ok &= ok_k
-            corr &= sup
-            rdet.append({"round": k, "status": st, "closed": irep["closed"], "nodup": irep["nodup"], "unresolved": irep["unresolved"],
-                         "dups": irep["dups"], "wrappers_and_listeners_superset_of_fresh_model": sup, "commands": o["rounds"][k].get("commands")})
-        outs.append(Outcome(c, corr, ok, kf=kf, detail={"rounds": rdet}, nontrivial=True))
+            corr &= same and sup
+            d = {"round": k, "status": st, "closed": irep["closed"], "nodup": irep["nodup"], "unresolved": irep["unresolved"],
+                 "dups": irep["dups"], "summaries_equal_state_machine_model": same, "wrappers_and_listeners_superset_of_fresh_model": sup,
+                 "model": {"fresh_ok": fresh_ok, "view_wf": vwf, "view_closed_world": vcw, "view_dom": vdom,
+                           "view_kf": [KF_ORDER[n] for n, b in enumerate(vkfs) if b], "closed": vrep["closed"], "nodup": vrep["nodup"],
+                           "unresolved": vrep["unresolved"], "discovered_structs": sorted(known)},
+                 "commands": o["rounds"][k].get("commands")}
+            if why:
+                d["why"] = why
+            if not same and not vbroken:
+                d["diff"] = [{"file": FILES[n], "impl": a, "model": b} for n, (a, b) in enumerate(zip(irep["files"], vrep["files"])) if a != b]
+            rdet.append(d)
+        outs.append(Outcome(c, corr, ok, kf=kf, detail={"kf_reuse_maps": dropped, "rounds": rdet}, nontrivial=True))
     return outs
 
 
@@ -387,6 +430,7 @@ def run(rep):
     inside = sum(v["in_known_class"] for k, v in st.items() if k != "atp")
     rep.extra["outside_every_class_fraction"] = round(1 - inside / max(1, tot), 3)
     rep.extra["cases_in_documented_type_language(dom)"] = {str(k): v for k, v in DOM_COUNT.items()}
+    rep.extra["reuse_state_machine"] = dict(REUSE_STATS)
     rep.extra["not_judged_observations"] = "index_ambiguous and import_decl_conflicts are compared with the model (corr) but are not part of ok; see notes/C02.md"
 
 
